@@ -33,3 +33,31 @@ package prng
 //@   loop 2 invariant filled: forall j: int :: 0 <= j && j < i ==> r.buf[j] == byteat(val, j)
 //@   loop 2 invariant position: 8 * (srccnt(r.src) - 1) == pos(old(srccnt(r.src)), old(r.off)) + n
 //@   loop 2 invariant stream: forall j: int :: 0 <= j && j < n ==> p[j] == byteat(U(r.src, (pos(old(srccnt(r.src)), old(r.off)) + j) / 8), (pos(old(srccnt(r.src)), old(r.off)) + j) % 8)
+//
+// Seeding (C19, "equal seed data yield identical streams"): sha256 and ChaCha8 are abstract deterministic
+// functions (hinit, absorb, digest, srcseed); hfold(k) is the hash state after the domain string and the
+// first k data slices. The contract pins the seed to digest(hfold(len(datas))), a function of the byte
+// contents of datas alone.
+//
+//@ spec hfold(heap: int, datas: [][]byte, k: int): int
+//
+//@ func BuildSeededRand
+//@   props C19
+//@   assume fold0: hfold(heapid(), datas, 0) == absorb(hinit(), canon("prng seed random in BuildSeededRand"))
+//@   assume foldS: forall k: int {hfold(heapid(), datas, k)} :: 1 <= k && k <= len(datas) ==> hfold(heapid(), datas, k) == absorb(hfold(heapid(), datas, k - 1), canon(datas[k - 1]))
+//@   opt frame = skip
+//@   ensures fresh: result != nil && srccnt(result) == 0
+//@   ensures seed: forall j: int :: srcseed(result)[j] == ite(0 <= j && j < 32 && j < digestlen(), digest(hfold(old(heapid()), datas, len(datas)))[j], 0)
+//@   loop 1 invariant idx: 0 - 1 <= rangeindex && rangeindex < len(datas)
+//@   loop 1 invariant absorbed: hstate(h) == hfold(old(heapid()), datas, rangeindex + 1)
+//
+//@ func SourceToReader
+//@   props C19
+//@   opt frame = skip
+//@   ensures result != nil && cast(result, randReader).src == src && cast(result, randReader).off == 0
+//
+//@ func BuildSeededReader
+//@   props C19
+//@   opt frame = skip
+//@   ensures start: result != nil && cast(result, randReader).off == 0 && cast(result, randReader).src != nil && srccnt(cast(result, randReader).src) == 0
+//@   ensures seed: forall j: int :: srcseed(cast(result, randReader).src)[j] == ite(0 <= j && j < 32 && j < digestlen(), digest(hfold(old(heapid()), datas, len(datas)))[j], 0)
